@@ -2,6 +2,7 @@ import Driver.Util
 import PasslibVerif.Model.Formats.Md5Sha2
 import PasslibVerif.Model.Formats.Static
 import PasslibVerif.Model.Formats.DesBcrypt
+import PasslibVerif.Model.Formats.Pbkdf
 namespace Driver.Formats
 open Py Driver Model.Handler Model.Formats
 
@@ -13,13 +14,20 @@ def showParsed (p : Parsed) : String :=
   s!"{showNatList p.ident} {showOptInt p.rounds} {showOptStr p.salt} {showOptStr p.checksum} " ++
   (if p.extra.isEmpty then "-" else ";".intercalate (p.extra.map fun kv => kv.1 ++ "=" ++ showNatList kv.2))
 
-def formats : List Format := Model.Formats.all ++ Model.Formats.staticAll ++ Model.Formats.desBcryptAll
+def formats : List Format := Model.Formats.all ++ Model.Formats.staticAll ++ Model.Formats.desBcryptAll ++ Model.Formats.pbkdfAll
+
+/-- formats modelled with exact error classes (TypeError of `b64s_decode` / of rendering without checksum) -/
+def formatsX : List FormatX := Model.Formats.pbkdfAllX
 
 def handle (args : List String) : String :=
   match args with
-  | ["parse", name, h] => match formats.find? (·.name = name), natList h with
+  | ["parse", name, h] => match formatsX.find? (·.name = name), natList h with
+    | some f, some h => showRes showParsed (f.parseX h)
+    | _, _ => match formats.find? (·.name = name), natList h with
     | some f, some h => showRes showParsed (toRes (f.parse h)) | _, _ => bad
-  | ["reparse", name, h] => match formats.find? (·.name = name), natList h with
+  | ["reparse", name, h] => match formatsX.find? (·.name = name), natList h with
+    | some f, some h => showRes showNatList ((f.parseX h).bind f.renderX)
+    | _, _ => match formats.find? (·.name = name), natList h with
     | some f, some h => showRes (fun p => showNatList (f.render p)) (toRes (f.parse h)) | _, _ => bad
   | ["identify", name, h] => match formats.find? (·.name = name), natList h with
     | some f, some h => "ok " ++ (if f.identify h then "1" else "0") | _, _ => bad
